@@ -43,7 +43,7 @@ type entry struct {
 }
 
 type stats struct {
-	GoStmts, Sends, Recvs, Closes, Selects, FieldHooks, FieldSkipped, MapRanges, Cancels, Loops int
+	GoStmts, Sends, Recvs, Closes, Selects, FieldHooks, AppendHooks, FieldSkipped, MapRanges, Cancels, Loops int
 }
 
 func fail(pos token.Position, msg string) {
